@@ -36,7 +36,7 @@ ASSUMPTIONS = [
     "upstream error text (the OpenConnection error string) is environment-supplied; the harness puts the token into it",
     "oracle for HTTP/1 framing = vf/refs/http1ref.py",
 ]
-OUTSIDE = ["HTTP/3 error pages", "bodies supplied by addons (flow.response set in a hook)", "HTTP/2 connection-level errors (GOAWAY carries no page)",
+OUTSIDE = ["HTTP/3 error pages", "the plain-text body of the 502 answer to a CONNECT whose upstream is unreachable (declares no HTML content type; noted by label connect-error-not-html)", "bodies supplied by addons (flow.response set in a hook)", "HTTP/2 connection-level errors (GOAWAY carries no page)",
            "tokens longer than the stated bound (lifted by the pair-homomorphic kernel, not enumerated)"]
 ENCODED = [
     "mitmproxy.proxy.layers.http._base:format_error",
@@ -244,7 +244,7 @@ def _token(X, marks):
 
 H1_SCENARIOS = ["bad-http-version", "bad-scheme", "bad-authority", "header-line-without-colon", "bad-content-length", "invalid-header-name", "no-host",
                 "oversize-request", "oversize-response", "unreachable-upstream", "upstream-bad-status-line", "upstream-invalid-header-name",
-                "upstream-bad-chunk-size", "upstream-closes"]
+                "upstream-bad-chunk-size", "upstream-closes", "connect-unreachable"]
 
 
 def h_e2e_h1(X, marks):
@@ -257,7 +257,7 @@ def h_e2e_h1(X, marks):
     ctx = sansio.make_context(opts)
     layer = H.HttpLayer(ctx, H.HTTPMode.regular)
     d = sansio.Driver(layer, ctx)
-    d.on_open = lambda cmd: (f"[Errno -2] Name or service not known: {tok}" if sc == "unreachable-upstream" else None)
+    d.on_open = lambda cmd: (f"[Errno -2] Name or service not known: {tok}" if sc in ("unreachable-upstream", "connect-unreachable") else None)
     d.start()
     ok_head = b"GET http://a.test/p?" + tb + b" HTTP/1.1\r\nHost: a.test\r\nX-T: " + tb + b"\r\n\r\n"
     method = b"GET"
@@ -276,6 +276,9 @@ def h_e2e_h1(X, marks):
         d.data(ctx.client, b"GET http://a.test/ HTTP/1.1\r\nHost: a.test\r\nX " + tb + b": v\r\n\r\n")
     elif sc == "no-host":
         d.data(ctx.client, b"GET /" + tb + b" HTTP/1.1\r\nHost: " + tb + b"\r\n\r\n")
+    elif sc == "connect-unreachable":
+        method = b"CONNECT"
+        d.data(ctx.client, b"CONNECT a.test:443 HTTP/1.1\r\nHost: a.test:443\r\nX-T: " + tb + b"\r\n\r\n")
     elif sc == "oversize-request":
         method = b"POST"
         d.data(ctx.client, b"POST http://a.test/" + tb + b" HTTP/1.1\r\nHost: a.test\r\nContent-Length: 8\r\n\r\n" + tb + b"!!")
@@ -305,6 +308,10 @@ def h_e2e_h1(X, marks):
             f"client bytes do not parse as exactly one complete response ({err}; {len(msgs)} messages; leftover {rest[:60]!r}): {out[:300]!r}")
     m = msgs[0]
     X.check(400 <= m.status <= 599, f"C12/h1/{sc}/not-an-error-status", f"status {m.status}")
+    if sc == "connect-unreachable" and not any(n == b"content-type" and b"html" in v.lower() for n, v in m.header_list()):
+        # the body of a refused CONNECT is plain text without an HTML content type: not an HTML error page (outside the sentence)
+        X.reach("connect-error-not-html")
+        return
     cl = [v for n, v in m.header_list() if n == b"content-length"]
     X.check(len(cl) == 1 and cl[0].isdigit() and int(cl[0]) == len(m.body), f"C12/h1/{sc}/content-length",
             f"Content-Length {cl} vs body of {len(m.body)} bytes")
@@ -398,7 +405,7 @@ def obligations(tier):
         Smt("reason-phrases", _build_reason_queries, bounds="every value of the status_codes.RESPONSES dict literal", encoded=["mitmproxy.proxy.layers.http._base:format_error"]),
         Smt("error-response-callsite", _build_callsite_queries, bounds="the AST of _http1.make_error_response (syntactic)", encoded=ENCODED[1:2]),
         Symx("e2e-h1", lambda X: h_e2e_h1(X, marks), bounds=f"{len(H1_SCENARIOS)} error-page paths x token 'Zq'+c1+c2+'Qz' with c1,c2 from {marks}; HTTP/1 client, regular mode",
-             encoded=ENCODED, must_reach=["reflected"] + [f"page:{s}" for s in H1_SCENARIOS] +
+             encoded=ENCODED, must_reach=["reflected", "connect-error-not-html"] + [f"page:{s}" for s in H1_SCENARIOS] +
              [f"reflected:h1/{s}" for s in ("bad-http-version", "bad-scheme", "bad-authority", "header-line-without-colon", "bad-content-length", "invalid-header-name",
                                             "unreachable-upstream", "upstream-bad-status-line", "upstream-invalid-header-name")], parallel_depth=2),
         Symx("e2e-h2", lambda X: h_e2e_h2(X, marks), bounds=f"{len(H2_SCENARIOS)} error-page paths x the same tokens; HTTP/2 client (in-memory h2 peer), HTTP/1 upstream",
